@@ -496,6 +496,49 @@ def search(ctx):
                 stats["cookie_violations"] += 1
                 if stats["cookie_violations"] <= 3:
                     vios.insert(0, {"input": {"command": "python3 e%d.py" % i, "script": text, "cwd": "<scratch>"}, "observed": {"verdict": "allow", "reason": dec.reason, "interpreter_encoding": enc}, "required": "the interpreter decodes this file as %s (tokenize.detect_encoding), Dippy analysed it as UTF-8: the analysed text is not the program - never allow" % enc, "oracle": "analysed-text-is-run-text(encoding)"})
+        # the modules an approved script imports are the standard library's: with a sibling file named like one of them in
+        # the script's directory (sys.path[0] unless -I / -P / -E-free isolation says otherwise) the sibling is what runs
+        sd = os.path.join(root, "shadow")
+        os.makedirs(sd)
+        open(os.path.join(sd, "roll.py"), "w").write("import random\nprint(random.random() < 2)\n")
+        open(os.path.join(sd, "random.py"), "w").write("print('@@SHADOW' + '-RAN@@')\ndef random():\n    return 0\n")
+        wx = ["-Wignore::ImportWarning", "-Werror::PendingDeprecationWarning", "-BWdefault::ImportWarning", "-XImporttime", "-Ximporttime", "-W", "ignore::ImportWarning", "-X", "Importtime", "-I", "-P", "-BI", "-IP", "-s", "-E", "-B", "-u", "-q", "-O", "-OO", "-d", "-v", "-bb", "-R", "-S"]
+        sjobs = []
+        for _ in range(ctx.scale(250, 5000) * (3 if ctx.broken else 1)):
+            opts = []
+            for _k in range(r.randint(0, 3)):
+                o = r.pick(wx)
+                if o in ("-W", "-X"):
+                    opts += [o, r.pick(["ignore::ImportWarning", "Importtime", "dev", "error::PendingDeprecationWarning"])]
+                elif o in ("ignore::ImportWarning", "Importtime"):
+                    continue
+                else:
+                    opts.append(o if r.chance(0.7) else rand_cluster(r))
+            if any(("c" in o[1:] or "m" in o[1:] or o in ("-", "-i")) and o.startswith("-") and not o.startswith("--") for o in opts if not o.startswith(("-W", "-X"))):
+                continue
+            script = r.pick(["roll.py", os.path.join(sd, "roll.py"), "./roll.py"])
+            cmd = "python3 " + " ".join(shlex.quote(o) for o in opts) + (" " if opts else "") + script
+            dec = analyze(cmd, Config(), Path(sd))
+            stats["evaluations"] += 1
+            stats["shadow:" + dec.action] += 1
+            if dec.action == "allow":
+                sjobs.append((cmd, opts, script))
+
+        def srun(job):
+            cmd, opts, script = job
+            try:
+                p = subprocess.run([PY] + opts + [script], cwd=sd, capture_output=True, timeout=20, stdin=subprocess.DEVNULL, env={"PATH": "/usr/bin:/bin", "HOME": sd})
+                return job, p.stdout.decode("utf-8", "replace")
+            except subprocess.TimeoutExpired:
+                return job, ""
+
+        with ThreadPoolExecutor(12) as ex:
+            for (cmd, opts, script), text in ex.map(srun, sjobs):
+                stats["shadow_executed"] += 1
+                if "@@SHADOW-RAN@@" in text:
+                    stats["shadow_violations"] += 1
+                    if stats["shadow_violations"] <= 3:
+                        vios.insert(0, {"input": {"command": cmd, "cwd": "<scratch with roll.py (import random) and a sibling random.py>"}, "observed": {"verdict": "allow", "stdout": text[:200]}, "required": "the interpreter imported the sibling random.py, a file Dippy did not analyse: never allow", "oracle": "imports-are-the-analysed-ones(shadowing)"})
     finally:
         shutil.rmtree(root, ignore_errors=True)
     return {"violations": vios, "evaluations": stats["evaluations"], "distinct_nontrivial": stats["executed"], "stats": dict(stats), "samples": samples, "oracle": "audit hook (PEP 578) vetoing file/process/network/ctypes/exec/compile/unlisted-import events in a child interpreter; marker commands"}
